@@ -550,7 +550,8 @@ def oracle_pairs(w, cis, dicts, viol, scen, stats):
 
 SCALARS = [0, 1, 2, 3, -1, True, False, None, "u", "vw", ""]
 NAME_POOL = ["a", "b", "c", "B_", "_p", "_Q", "Z", "m1", "m10", "m2", "__h__", "__dd", "x_", "aa", "A"]
-NAME_KEYS = ["A", "B", "Q", "S", "S.X", "S.Y", "T", "T.U", "T.U.V", "T.K", "S.Z"]
+# "AB" / "S.XY": plain STRING prefixes of "A" / "S.X" with no dot boundary (startswith confusions)
+NAME_KEYS = ["A", "B", "Q", "S", "S.X", "S.Y", "T", "T.U", "T.U.V", "T.K", "S.Z", "AB", "S.XY"]
 INDEX_KEYS = ["L", "L.0", "L.1", "L.0.X", "L.3", "S.0"]
 
 
@@ -567,7 +568,7 @@ def gen_dict(rng, malformed=False, with_list=True, strings_ok=True):
     """strings_ok=False: no string where a list-index key could be applied (indexing INTO a string
     returns a character in Python; outside the modelled universe, DESIGN 2.2)"""
     o = {}
-    tops = ["A", "B", "Q", "S", "T"] + (["L"] if with_list else [])
+    tops = ["A", "B", "Q", "S", "T", "AB"] + (["L"] if with_list else [])
     rng.shuffle(tops)
     for t in tops:
         if rng.random() < 0.08:
@@ -576,7 +577,7 @@ def gen_dict(rng, malformed=False, with_list=True, strings_ok=True):
             if malformed and rng.random() < 0.5:
                 o["S"] = rng.choice([5, None, True, "u", [1]] if strings_ok else [5, None, True, [1]])
             else:
-                o["S"] = {k: gen_value(rng) for k in rng.sample(["X", "Y", "Z"], rng.choice([1, 2, 3, 3, 3]))}
+                o["S"] = {k: gen_value(rng) for k in rng.sample(["X", "Y", "Z", "XY"], rng.choice([1, 2, 3, 3, 4]))}
         elif t == "T":
             if malformed and rng.random() < 0.3:
                 o["T"] = rng.choice([7, {"U": 3}])
